@@ -307,20 +307,16 @@ def toLongX86 (x : Float) : Int :=
 /-- `time::seconds(sec)` in nanoseconds, **as coded**:
 `s = (long)sec; us = (long)((sec - (double)s) * 1000000); return seconds(s) + microseconds(us);`
 (the sum is formed in microseconds and converted to the clock's nanoseconds; 64-bit wrap-around for
-durations beyond ~292 years, finding F195). -/
+durations beyond ~292 years - `saturatedSeconds` keeps such durations away from it since f29ac4e4e). -/
 def secondsToNs (sec : Float) : Int :=
   let s := toLongX86 sec
   let us := toLongX86 ((sec - Float.ofInt s) * 1000000.0)
   wrap64 (wrap64 (wrap64 (s * 1000000) + us) * 1000)
 
-/-- `const time::point endTime(time::now() + duration)` **as coded**: a 64-bit addition on the clock's
-absolute nanosecond count.  `base` is the absolute value of the model's clock origin; the result is
-again relative to that origin. -/
-def endPointCoded (base now d : Int) : Int := wrap64 (base + now + d) - base
-
-/-- the proposed repair of F195 (notes/C18-fix-F195.diff), kept beside the as-coded definitions so that the
-model can follow the code the day the repair lands (driver header `timed=sat`): seconds saturate at the
-ends of the duration range (NaN counts as 0) … -/
+/-- `saturatedSeconds(duration)` (PlannerTerminationCondition.cpp since /repo f29ac4e4e): the double is
+turned into the clock's nanoseconds with `time::seconds`, except that NaN counts as 0 and everything at
+or beyond `limit = duration<double>(duration::max()).count() - 1` saturates at `duration::max()` /
+`duration::min()`. -/
 def secondsToNsSat (sec : Float) : Int :=
   let limit := Float.ofInt 9223372036854775807 / 1000000000.0 - 1.0
   if sec.isNaN then 0
@@ -328,16 +324,27 @@ def secondsToNsSat (sec : Float) : Int :=
   else if sec ≤ -limit then -9223372036854775808
   else secondsToNs sec
 
-/-- … and `now + duration` saturates at the ends of the clock's range. -/
+/-- `endTimeAfter(duration)`: `now + duration`, saturating at `time::point::max()` / `min()`.  `base` is the
+absolute value of the model's clock origin; the result is again relative to that origin. -/
 def endPointSat (base now d : Int) : Int :=
   let a := base + now
   if 0 < d ∧ a > 9223372036854775807 - d then 9223372036854775807 - base
   else if d < 0 ∧ a < -9223372036854775808 - d then -9223372036854775808 - base
   else a + d - base
 
-/-- the timed condition as coded (cf. `mkTimed`, which is the overflow-free idealisation) -/
+/-- the timed condition **as coded** (cf. `mkTimed`, the idealisation over unbounded integers):
+`d` is the duration in the clock's nanoseconds (`secondsToNsSat sec` for the `double` factories, the
+argument itself for the `time::duration` overload). -/
 def mkTimedCoded (env : Env) (base : Int) (i : Nat) (polled : Bool) (d : Int) (s : St) : Cond × St :=
-  (.leaf i polled (.timed (endPointCoded base (env.clock s.reads) d)), { s with reads := s.reads + 1 })
+  (.leaf i polled (.timed (endPointSat base (env.clock s.reads) d)), { s with reads := s.reads + 1 })
+
+/-- the code **before** f29ac4e4e (finding F195): `time::now() + time::seconds(duration)`, a wrapping
+64-bit addition on top of the wrapping conversion `secondsToNs`.  Kept for `timed_overflow_fails` and for
+checking a tree that does not have the repair (driver header `sat=0`). -/
+def endPointOld (base now d : Int) : Int := wrap64 (base + now + d) - base
+
+def mkTimedOld (env : Env) (base : Int) (i : Nat) (polled : Bool) (d : Int) (s : St) : Cond × St :=
+  (.leaf i polled (.timed (endPointOld base (env.clock s.reads) d)), { s with reads := s.reads + 1 })
 
 /-! ### the polled form at thread-step granularity
 
